@@ -2,7 +2,7 @@
 # confirm2.sh <PROP> <k> [outname]: independently confirm a sub-agent's seeded change (from /tmp/seed-out/<PROP>/m<k>)
 # in the scratch worktree /tmp/wt-<PROP>; keep it under /verif/seeded/<outname> (default <PROP>-m<k>).
 export GOFLAGS=-mod=mod GOPROXY=off GOSUMDB=off GOTOOLCHAIN=local
-P=$1; k=$2; src=/tmp/seed-out/$P/m$k; wt=/tmp/wt-$P; out=/verif/seeded/${3:-$P-m$k}
+P=$1; k=$2; src=${SEEDSRC:-/tmp/seed-out}/$P/m$k; wt=${SEEDWT:-/tmp/wt}-$P; out=/verif/seeded/${3:-$P-m$k}
 [ -d "$wt" ] || { echo "no worktree $wt"; exit 2; }
 cd $wt && git checkout -q -- . && git clean -fdq
 d=$(python3 -c "import json;print(json.load(open('$src/meta.json'))['demo_dir'].strip('/'))")
